@@ -5,6 +5,7 @@ package props
 // types are consistent; parity is the RS code of the group; nonces are fresh.
 
 import (
+	"bytes"
 	"fmt"
 	"io"
 	"os"
@@ -38,6 +39,10 @@ func TestC09Session(t *testing.T) {
 		}
 		var obs [2]*wireObserver
 		shortBatches := 0
+		dup, dupCopies := 0, 0
+		if batchSeed == 0 && !cfg.Listener && rapid.IntRange(0, 3).Draw(rt, "setdup") == 0 {
+			dup = rapid.IntRange(1, 2).Draw(rt, "dup")
+		}
 		rapid.SyncTest(rt, func(rt *rapid.T) {
 			s := sim.NewSessSim(cfg.ClockOff, cfg.EntropySeed)
 			p, err := sim.NewPair(s, cfg, app)
@@ -72,11 +77,28 @@ func TestC09Session(t *testing.T) {
 				obs[e].written = func() int64 { a, _, _ := p.Progress(e); return a + 1<<40 } // accepted bytes are checked by C01; a Write in progress may already be on the wire
 				obs[e].clock = s.Now
 			}
+			// SetDUP (a switch kept for testing) makes the session send every packet
+			// dup+1 times: the copies must be exact copies, frame and all
+			var lastDg [2][]byte
+			var copies [2]int
+			if dup > 0 {
+				for e := 0; e < 2; e++ {
+					if p.Sess[e] != nil {
+						p.Sess[e].SetDUP(dup)
+					}
+				}
+			}
 			s.OnSent = func(d *sim.Sent, from, to string, f *sim.Fate) error {
 				e := 0
 				if from == p.Addr[1].String() {
 					e = 1
 				}
+				if dup > 0 && copies[e] < dup && bytes.Equal(d.Data, lastDg[e]) {
+					copies[e]++
+					dupCopies++
+					return nil
+				}
+				lastDg[e], copies[e] = append(lastDg[e][:0], d.Data...), 0
 				return obs[e].Observe(d.Data)
 			}
 			// a few out-of-band packets interleaved with the stream
@@ -132,6 +154,9 @@ func TestC09Session(t *testing.T) {
 		}
 		if shortBatches > 0 {
 			cl = append(cl, "batch_transmit_with_short_writes")
+		}
+		if dupCopies > 0 {
+			cl = append(cl, "setdup_copies_on_the_wire")
 		}
 		rec.Add("n_datagrams_decoded", int64(tot(func(o *wireObserver) int { return o.Datagrams })))
 		rec.Add("n_fec_groups_recomputed", int64(grp))
